@@ -168,6 +168,18 @@ func KillAndEvictPods(evictionExecutor EvictionExecutor, node *corev1.Node, task
 		if len(subReleaseListNoNegative(task.ToReleaseResource, releasedAll[releaseTarget])) == 0 {
 			continue
 		}
+		// pods of this list that were evicted in a previous round but are still present release their resources
+		// anyway: count all of them before a new victim is picked
+		for _, info := range podInfos {
+			podKey := util.GetPodKey(info.Pod)
+			if !evictedPodsMp[podKey] && evictionExecutor.IsPodEvicted(info.Pod) {
+				evictedPodsMp[podKey] = true
+				addResource(releasedAll, aggregateReleaseFunc(info))
+			}
+		}
+		if len(subReleaseListNoNegative(task.ToReleaseResource, releasedAll[releaseTarget])) == 0 {
+			continue
+		}
 		for _, info := range podInfos {
 			podKey := util.GetPodKey(info.Pod)
 			if evictedPodsMp[podKey] {
